@@ -4,7 +4,7 @@
 //! choice), and the observer of the property named by ATSV_FUZZ_PROP judges the case.
 use atsv::driver::{self, Known};
 use atsv::exec::Prop;
-use atsv::gen::{self, Tape, OP_WORDS, WORLD_WORDS};
+use atsv::gen;
 use libfuzzer_sys::fuzz_target;
 use std::sync::OnceLock;
 
@@ -24,33 +24,9 @@ fn ctx() -> &'static Ctx {
     })
 }
 
-pub fn decode(data: &[u8]) -> Tape {
-    let word = |i: usize| -> u32 {
-        let mut b = [0u8; 4];
-        for k in 0..4 {
-            b[k] = *data.get(4 * i + k).unwrap_or(&0);
-        }
-        u32::from_le_bytes(b)
-    };
-    let mut world = [0u32; WORLD_WORDS];
-    for (i, w) in world.iter_mut().enumerate() {
-        *w = word(i);
-    }
-    let n_ops = data.len().saturating_sub(4 * WORLD_WORDS) / (4 * OP_WORDS);
-    let mut ops = Vec::with_capacity(n_ops);
-    for k in 0..n_ops.min(160) {
-        let mut op = [0u32; OP_WORDS];
-        for (i, w) in op.iter_mut().enumerate() {
-            *w = word(WORLD_WORDS + k * OP_WORDS + i);
-        }
-        ops.push(op);
-    }
-    Tape { world, ops }
-}
-
 fuzz_target!(|data: &[u8]| {
     let c = ctx();
-    let tape = decode(data);
+    let tape = gen::tape_from_bytes(data);
     let r = driver::eval_case(c.prop, &c.profile, &tape);
     let unknown: Vec<_> = r.judge.violations.iter().filter(|v| !c.known.is_known(v)).cloned().collect();
     if !unknown.is_empty() {
